@@ -1,17 +1,19 @@
-(* Faithful mini-models of two places where d2oracle deviates from the specification, and refutations
-   of the property on them.  The witnesses are scripted steps of harness/c38.go (c38Scripts) and are
-   replayed on the real code on every run (recorded findings C39-rename-unique-name-wrong-scope /
-   C40-rename-prediction-scope and C40-move-same-scope-predicts-hoisting). *)
+(* HISTORICAL lemmas about the PINNED variant of d2oracle (before commit 5fe3102b5 "fix: Rename and the
+   ID-delta predictions use the renamed object's own scope").  They are faithful mini-models of two
+   computations that deviated from the specification, and show on concrete diagrams that the pinned
+   variant violated C39 / C40.  The repaired code follows the specification (spec_rename, obj_deltas);
+   the witnesses stay scripted steps of harness/c38.go and now pass without a known-finding tag.
+   See coq/C39/fixed.json and coq/C40/fixed.json. *)
 From Coq Require Import List NArith Bool.
 Import ListNotations.
 Require Import V.Lib.RunCases V.C38.Spec.
 Open Scope N_scope.
 
-(* d2oracle.Rename: (1) generateUniqueKey(boardG, newName, obj, nil) with the bare name, i.e. against the
+(* pinned d2oracle.Rename: (1) generateUniqueKey(boardG, newName, obj, nil) with the bare name, i.e. against the
    ROOT scope (the object itself is ignored only when it lives there); (2) move(key, parent.newName), which
    calls generateUniqueKey again among the parent's children with nothing ignored and returns early when
    the key does not change. *)
-Definition go_rename_name (g : graph) (t : N) (n : str) : option str :=
+Definition pinned_rename_name (g : graph) (t : N) (n : str) : option str :=
   match find_obj t (g_objs g) with
   | None => None
   | Some (sl, pp, a, x, b) =>
@@ -39,21 +41,21 @@ Definition g_rename2 : graph :=
 
 (* Rename(a.b, "c") gives a."c 2" although a.c is free and predicted; Rename(p."c 2", "c") gives "c 3"
    where the prediction (and the specification) keep "c 2" *)
-Theorem rename_root_scope_refuted :
-  (go_rename_name g_rename 3 [99] = Some [99; 32; 50] /\ spec_rename_name g_rename 3 [99] = Some [99])
-  /\ (go_rename_name g_rename2 3 [99] = Some [99; 32; 51] /\ spec_rename_name g_rename2 3 [99] = Some [99; 32; 50]).
+Lemma pinned_rename_used_root_scope :
+  (pinned_rename_name g_rename 3 [99] = Some [99; 32; 50] /\ spec_rename_name g_rename 3 [99] = Some [99])
+  /\ (pinned_rename_name g_rename2 3 [99] = Some [99; 32; 51] /\ spec_rename_name g_rename2 3 [99] = Some [99; 32; 50]).
 Proof. vm_compute. repeat split. Qed.
 
 (* on root-level objects the two agree (guarded positive statement, checked on the witnesses' roots) *)
-Theorem rename_root_level_agrees :
-  go_rename_name g_rename 2 [99] = spec_rename_name g_rename 2 [99]
-  /\ go_rename_name g_rename 1 [97] = spec_rename_name g_rename 1 [97].
+Lemma pinned_rename_root_level_agreed :
+  pinned_rename_name g_rename 2 [99] = spec_rename_name g_rename 2 [99]
+  /\ pinned_rename_name g_rename 1 [97] = spec_rename_name g_rename 1 [97].
 Proof. vm_compute. split; reflexivity. Qed.
 
-(* MoveIDDeltas(key, newKey, includeDescendants = false) inside one scope: the conflict renames of the
+(* pinned MoveIDDeltas(key, newKey, includeDescendants = false) inside one scope: the conflict renames of the
    children are computed as for a hoist (against the object's siblings) and applied although the
    children stay below the object. *)
-Definition go_move_same_scope_deltas (g : graph) (t : N) (n : str) : list (path * path) :=
+Definition pinned_move_same_scope_deltas (g : graph) (t : N) (n : str) : list (path * path) :=
   match find_obj t (g_objs g) with
   | None => []
   | Some (sl, pp, a, x, b) =>
@@ -65,9 +67,9 @@ Definition go_move_same_scope_deltas (g : graph) (t : N) (n : str) : list (path 
 (* a: L1 { b: L2 }; b: L3 *)
 Definition g_move : graph := mkG [Obj 1 [97] [] [Obj 2 [98] [] []]; Obj 3 [98] [] []] [].
 
-(* Move(a, c, false) keeps the child as c.b; MoveIDDeltas predicts c."b 2" *)
-Theorem move_same_scope_prediction_refuted :
-  go_move_same_scope_deltas g_move 1 [99] = [([[97]], [[99]]); ([[97]; [98]], [[99]; [98; 32; 50]])]
+(* Move(a, c, false) keeps the child as c.b; the pinned MoveIDDeltas predicted c."b 2" *)
+Lemma pinned_move_same_scope_predicted_hoisting :
+  pinned_move_same_scope_deltas g_move 1 [99] = [([[97]], [[99]]); ([[97]; [98]], [[99]; [98; 32; 50]])]
   /\ option_map (fun g => map r_path (rows g)) (spec_move g_move 1 None [99] false) = Some [[[99]]; [[99]; [98]]; [[98]]]
   /\ obj_deltas g_move (OpMove 1 None [99] false) = [([[97]], [[99]]); ([[97]; [98]], [[99]; [98]])].
 Proof. vm_compute. repeat split. Qed.
